@@ -161,6 +161,16 @@ func c07Run(c *mon.Ctx, csAny any) {
 			}
 		}
 
+		// a retained encoding must survive later changes of the scalar (snapshot / restore)
+		keep := append([]byte{}, enc...)
+		s.Add(mon.Scal(big.NewInt(1)))
+		_, _ = s.Encode(), s.Hex()
+		_, _ = s.MarshalBinary()
+
+		if !bytes.Equal(enc, keep) || !bytes.Equal(mb, keep) {
+			c.Fail(fmt.Sprintf("an encoding of %x returned earlier changed after the scalar was modified and encoded again", v), "scalar-encode-not-retained", nil)
+		}
+
 		if v.BitLen() > 1 {
 			c.Seen("encode", cs.In)
 		}
